@@ -334,6 +334,7 @@ class DeserialiserGuard(object):
 
         bounds = self.bounds
         guard = self
+        max_depth = self.max_depth
 
         for cls in (serdes.Deserialiser, serdes.MonitoredDeserialiser):
             for meth in ("uint", "nbits"):
